@@ -310,6 +310,12 @@ fn check_pair(a: &[u32], b: &[u32], id: u32, ctor: u8, stats: &mut Stats) -> Che
     if !sa.is_empty() && !sb.is_empty() && (sa.len() * 4 < sb.len() || sb.len() * 4 < sa.len()) && !sa.is_subset(&sb) && !sb.is_subset(&sa) {
         stats.label("pair:unbalanced-not-nested");
     }
+    {
+        let (small, large) = if sa.len() < sb.len() { (&sa, &sb) } else { (&sb, &sa) };
+        if small.len() >= 2 && small.len() * 32 < large.len() && !inter.is_empty() && inter.len() < small.len() {
+            stats.label("pair:few-ids-vs-65+-partly-contained");
+        }
+    }
     if nontrivial {
         stats.label("nontrivial");
         stats.nontrivial(hash_json(&(a, b, id)));
@@ -385,6 +391,25 @@ pub fn check(c: &Case, stats: &mut Stats) -> CheckResult {
         }
         Case::Terms { facts } => check_terms(facts, stats),
     }
+}
+
+/// A few ids against a long run (65 - 260 ids, beyond the pool): some of the few are members of the
+/// run, some fall between its elements, below or above it.
+fn tiny_vs_large_strategy() -> impl Strategy<Value = Case> {
+    (65usize..=260, 0u32..5000, 1u32..4, vec((any::<u16>(), any::<bool>()), 1..5), any::<u16>(), (0u8..6, 0u8..6), any::<bool>()).prop_map(|(n, start, step, few, idp, (c1, c2), swap)| {
+        let large: Vec<u32> = (0..n as u32).map(|i| start + i * step * 2).collect();
+        let small: Vec<u32> = few
+            .iter()
+            .map(|(p, member)| {
+                let base = large[pick(*p, n)];
+                if *member { base } else { base + 1 }
+            })
+            .collect();
+        // constructors that do not need terms of the fixture
+        let ctor = [0u8, 1, 2, 3, 4, 6][c1 as usize] + 7 * [0u8, 1, 2, 3, 4, 6][c2 as usize];
+        let id = large[pick(idp, n)] + u32::from(idp % 2);
+        if swap { Case::Pair { a: small, b: large, id, ctor } } else { Case::Pair { a: large, b: small, id, ctor } }
+    })
 }
 
 fn ops_strategy() -> impl Strategy<Value = Case> {
@@ -471,6 +496,7 @@ fn strategy(tier: Tier) -> BoxedStrategy<Case> {
     prop_oneof![
         3 => ops_strategy(),
         5 => pair_strategy(),
+        1 => tiny_vs_large_strategy(),
         2 => gen::facts(cfg).prop_map(|facts| Case::Terms { facts }),
     ]
     .boxed()
@@ -495,7 +521,7 @@ impl Property for C12 {
         }
     }
     fn required_labels(&self, _tier: Tier) -> Vec<&'static str> {
-        vec!["nontrivial", "ops:len>30", "pair:operand>30", "pair:equal-length", "pair:unbalanced-not-nested", "pair:disjoint", "pair:nested", "pair:equal", "pair:empty-operand", "terms:diamond", "group>255-ids", "group>65535-ids"]
+        vec!["nontrivial", "ops:len>30", "pair:operand>30", "pair:equal-length", "pair:unbalanced-not-nested", "pair:disjoint", "pair:nested", "pair:equal", "pair:empty-operand", "terms:diamond", "group>255-ids", "group>65535-ids", "pair:few-ids-vs-65+-partly-contained"]
     }
     fn run_generated(&self, tier: Tier, seed: u64, n: u64, stats: &mut Stats) -> Option<(Value, Failure)> {
         run_typed(strategy(tier), seed, n, stats, check)
